@@ -5,6 +5,45 @@ Vocabulary: `RuschmSpec/Lib.lean`.
 import RuschmSpec.Lib
 
 namespace Ruschm
+
+/-! ## C12: facts about the spec -/
+
+namespace S
+
+theorem renameTarget_swap (a b n : String) : renameTarget [(a, b), (b, a)] n = swapName a b n := by
+  unfold renameTarget swapName
+  simp only [List.reverse_cons, List.reverse_nil, List.nil_append, List.cons_append,
+    List.lookup_cons, List.lookup_nil]
+  by_cases h1 : n = a <;> by_cases h2 : n = b
+  · subst h1; subst h2; simp
+  · subst h1
+    have : (n == b) = false := by simpa using h2
+    simp [this]
+  · subst h2
+    simp [h1]
+  · have e1 : (n == a) = false := by simpa using h1
+    have e2 : (n == b) = false := by simpa using h2
+    simp [e1, e2, h1, h2]
+
+theorem renameTarget_single (a b n : String) :
+    renameTarget [(a, b)] n = if n = a then b else n := by
+  unfold renameTarget
+  simp only [List.reverse_cons, List.reverse_nil, List.nil_append, List.lookup_cons, List.lookup_nil]
+  by_cases h1 : n = a
+  · simp [h1]
+  · have e1 : (n == a) = false := by simpa using h1
+    simp [e1, h1]
+
+theorem denote_rename {s : ImportSet} {ex bs} (pairs) (h : denote s ex = some bs) :
+    denote (.rename s pairs) ex = some (bs.map fun p => (renameTarget pairs p.1, p.2)) := by
+  simp [denote, h]
+
+theorem denote_only {s : ImportSet} {ex bs} (ids) (h : denote s ex = some bs) :
+    denote (.only s ids) ex = some (bs.filter fun p => ids.contains p.1) := by
+  simp [denote, h]
+
+end S
+
 namespace Interp
 open Ruschm
 
@@ -138,5 +177,285 @@ theorem importSet_spec (s : ImportSet) : ∀ (fuel : Nat) (st : State) (bs : S.B
     intro b _
     cases pairs.reverse.lookup b.1 <;> rfl
 
+/-! ## an invariant of every step of the interpreter (one induction on fuel for all of the mutual block) -/
+
+/-- What every step of the interpreter preserves, relative to a preorder `R` on stores that the
+evaluator respects. -/
+structure Inv (R : Store → Store → Prop) (st st' : State) : Prop where
+  inProgress : st'.inProgress = st.inProgress
+  instances : ∀ n d, libLookup st.instances n = some d → libLookup st'.instances n = some d
+  factories : ∀ n f, libLookup st.factories n = some f → libLookup st'.factories n = some f
+  files : st'.files = st.files
+  env : st'.env = st.env
+  syn : st'.syn = st.syn
+  importEnd : st'.importEnd = st.importEnd
+  store : R st.store st'.store
+
+/-- the hypotheses on `R` -/
+structure StoreRel (R : Store → Store → Prop) : Prop where
+  refl : ∀ σ, R σ σ
+  trans : ∀ {a b c}, R a b → R b c → R a c
+  expr : ∀ {fuel σ ρ e r σ'}, Eval.evalExpr fuel σ ρ e = (r, σ') → R σ σ'
+  define : ∀ σ ρ k v, R σ (σ.define ρ k v)
+  newFrame : ∀ σ p, R σ (σ.newFrame p).2
+
+variable {R : Store → Store → Prop}
+
+theorem Inv.refl (hR : StoreRel R) (st : State) : Inv R st st :=
+  ⟨rfl, fun _ _ h => h, fun _ _ h => h, rfl, rfl, rfl, rfl, hR.refl _⟩
+
+theorem Inv.trans (hR : StoreRel R) {a b c : State} (h1 : Inv R a b) (h2 : Inv R b c) : Inv R a c :=
+  ⟨h2.inProgress.trans h1.inProgress, fun n d h => h2.instances n d (h1.instances n d h),
+   fun n f h => h2.factories n f (h1.factories n f h), h2.files.trans h1.files,
+   h2.env.trans h1.env, h2.syn.trans h1.syn, h2.importEnd.trans h1.importEnd,
+   hR.trans h1.store h2.store⟩
+
+theorem Inv.store_step (st : State) {σ' : Store} (h : R st.store σ') :
+    Inv R st { st with store := σ' } :=
+  ⟨rfl, fun _ _ h => h, fun _ _ h => h, rfl, rfl, rfl, rfl, h⟩
+
+theorem foldl_define_rel (hR : StoreRel R) (ρ : Nat) (defs : List (String × Value)) (σ : Store) :
+    R σ (defs.foldl (fun σ p => σ.define ρ p.1 p.2) σ) := by
+  induction defs generalizing σ with
+  | nil => exact hR.refl _
+  | cons p rest ih => exact hR.trans (hR.define σ ρ p.1 p.2) (ih _)
+
+theorem evalExprOrDef_inv (hR : StoreRel R) {fuel st s ρ r st'}
+    (h : evalExprOrDef fuel st s ρ = (r, st')) : Inv R st st' := by
+  unfold evalExprOrDef at h
+  split at h
+  · split at h <;> (rename_i he; cases h; exact Inv.store_step _ (hR.expr he))
+  · split at h <;> rename_i he <;> cases h
+    · exact Inv.store_step _ (hR.trans (hR.expr he) (hR.define _ _ _ _))
+    · exact Inv.store_step _ (hR.expr he)
+  · cases h; exact Inv.store_step _ (hR.define _ _ _ _)
+  · cases h; exact Inv.refl hR _
+
+/-- the invariant for all functions of the mutual block at one amount of fuel -/
+structure InvAt (R : Store → Store → Prop) (fuel : Nat) : Prop where
+  importSet : ∀ {st s r st'}, evalImportSet fuel st s = (r, st') → Inv R st st'
+  getLibrary : ∀ {st name loc r st'}, getLibrary fuel st name loc = (r, st') → Inv R st st'
+  import_ : ∀ {st sets ρ r st'}, evalImport fuel st sets ρ = (r, st') → Inv R st st'
+  importSets : ∀ {st sets acc r st'}, evalImportSets fuel st sets acc = (r, st') → Inv R st st'
+  libraryDef : ∀ {st decls r st'}, evalLibraryDef fuel st decls = (r, st') → Inv R st st'
+  libDecls : ∀ {st ρ decls acc r st'}, evalLibDecls fuel st ρ decls acc = (r, st') → Inv R st st'
+  statements : ∀ {st ρ ss r st'}, evalStatements fuel st ρ ss = (r, st') → Inv R st st'
+
+theorem invAt_zero (hR : StoreRel R) : InvAt R 0 := by
+  constructor <;> intros <;> rename_i h
+  · rw [evalImportSet] at h; cases h; exact Inv.refl hR _
+  · rw [Interp.getLibrary] at h; cases h; exact Inv.refl hR _
+  · rw [evalImport] at h; cases h; exact Inv.refl hR _
+  · rw [evalImportSets] at h; cases h; exact Inv.refl hR _
+  · rw [evalLibraryDef] at h; cases h; exact Inv.refl hR _
+  · rw [evalLibDecls] at h; cases h; exact Inv.refl hR _
+  · rw [evalStatements] at h; cases h; exact Inv.refl hR _
+
+
+theorem importSet_succ (hR : StoreRel R) {fuel} (ih : InvAt R fuel) {st s r st'}
+    (h : evalImportSet (fuel + 1) st s = (r, st')) : Inv R st st' := by
+  cases s with
+  | direct name loc =>
+    rw [evalImportSet] at h
+    split at h
+    · cases h; exact Inv.refl hR _
+    · cases h
+      have i := ih.getLibrary (st := { st with inProgress := name :: st.inProgress }) (name := name)
+        (loc := loc) (r := _) (st' := _) rfl
+      exact ⟨by simp [i.inProgress], i.instances, i.factories, i.files, i.env, i.syn, i.importEnd, i.store⟩
+  | _ =>
+    rw [evalImportSet] at h
+    split at h <;> rename_i he <;> cases h <;> exact ih.importSet he
+
+/-- the factory `get_library` finds for a name that has no instance yet: the registered one, or
+one made from the library file (which is then registered) -/
+def findFactory (st : State) (name : LibName) (loc : Loc) : Except SErr Factory × State :=
+  match libLookup st.factories name with
+  | some f => (.ok f, st)
+  | none =>
+    match st.files.lookup (libPath name) with
+    | none => (.error (.libNotFound, loc), st)
+    | some .unreadable => (.error (.io, none), st)
+    | some (.text t) =>
+      match factoryOfText name t with
+      | .ok f => (.ok f, { st with factories := libInsert st.factories name f })
+      | .error e => (.error e, st)
+
+/-- `new_library` -/
+def newLibrary (fuel : Nat) (st : State) (f : Factory) : Except SErr (List (String × Value)) × State :=
+  match f with
+  | .native defs => (.ok defs, st)
+  | .ast decls => evalLibraryDef fuel st decls
+
+/-- the insertion into the instance cache after a successful instantiation -/
+def cacheInstance (name : LibName) (res : Except SErr (List (String × Value)) × State) :
+    Except SErr (List (String × Value)) × State :=
+  match res.1 with
+  | .ok defs => (.ok defs, { res.2 with instances := libInsert res.2.instances name defs })
+  | .error e => (.error e, res.2)
+
+def instantiate (fuel : Nat) (st : State) (f : Factory) (name : LibName) :
+    Except SErr (List (String × Value)) × State :=
+  cacheInstance name (newLibrary fuel st f)
+
+theorem getLibrary_succ_eq (fuel : Nat) (st : State) (name : LibName) (loc : Loc) :
+    Interp.getLibrary (fuel + 1) st name loc =
+      match libLookup st.instances name with
+      | some defs => (.ok defs, st)
+      | none =>
+        match findFactory st name loc with
+        | (.error e, st) => (.error e, st)
+        | (.ok f, st) => instantiate fuel st f name := by
+  rw [Interp.getLibrary]
+  rfl
+
+theorem findFactory_inv (hR : StoreRel R) {st name loc r st'} (hnone : libLookup st.instances name = none)
+    (h : findFactory st name loc = (r, st')) : Inv R st st' ∧ libLookup st'.instances name = none := by
+  unfold findFactory at h
+  split at h
+  · cases h; exact ⟨Inv.refl hR _, hnone⟩
+  · rename_i hf
+    split at h
+    · cases h; exact ⟨Inv.refl hR _, hnone⟩
+    · cases h; exact ⟨Inv.refl hR _, hnone⟩
+    · split at h
+      · cases h
+        refine ⟨⟨rfl, fun _ _ h => h, ?_, rfl, rfl, rfl, rfl, hR.refl _⟩, hnone⟩
+        intro n f' h'
+        exact libLookup_libInsert_of_some _ hf h'
+      · cases h; exact ⟨Inv.refl hR _, hnone⟩
+
+theorem cacheInstance_inv {st name res r st'}
+    (hnone : libLookup st.instances name = none) (i : Inv R st res.2)
+    (h : cacheInstance name res = (r, st')) : Inv R st st' := by
+  unfold cacheInstance at h
+  split at h
+  · cases h
+    refine ⟨i.inProgress, ?_, i.factories, i.files, i.env, i.syn, i.importEnd, i.store⟩
+    intro n d hn
+    have hne : n ≠ name := by rintro rfl; simp [hnone] at hn
+    simpa [libLookup_libInsert_ne _ _ hne] using i.instances n d hn
+  · cases h; exact i
+
+theorem newLibrary_inv (hR : StoreRel R) {fuel} (ih : InvAt R fuel) (st f) :
+    Inv R st (newLibrary fuel st f).2 := by
+  unfold newLibrary
+  cases f with
+  | native defs => exact Inv.refl hR _
+  | ast decls => exact ih.libraryDef (r := _) (st' := _) rfl
+
+theorem instantiate_inv (hR : StoreRel R) {fuel} (ih : InvAt R fuel) {st f name r st'}
+    (hnone : libLookup st.instances name = none)
+    (h : instantiate fuel st f name = (r, st')) : Inv R st st' :=
+  cacheInstance_inv hnone (newLibrary_inv hR ih st f) h
+
+theorem getLibrary_succ (hR : StoreRel R) {fuel} (ih : InvAt R fuel) {st name loc r st'}
+    (h : Interp.getLibrary (fuel + 1) st name loc = (r, st')) : Inv R st st' := by
+  rw [getLibrary_succ_eq] at h
+  split at h
+  · cases h; exact Inv.refl hR _
+  · rename_i hnone
+    split at h
+    · rename_i hf; cases h; exact (findFactory_inv hR hnone hf).1
+    · rename_i hf
+      have ⟨i1, hn⟩ := findFactory_inv hR hnone hf
+      exact Inv.trans hR i1 (instantiate_inv hR ih hn h)
+
+
+theorem import_succ (hR : StoreRel R) {fuel} (ih : InvAt R fuel) {st sets ρ r st'}
+    (h : evalImport (fuel + 1) st sets ρ = (r, st')) : Inv R st st' := by
+  rw [evalImport] at h
+  split at h <;> rename_i he <;> cases h
+  · exact ih.importSets he
+  · exact Inv.trans hR (ih.importSets he) (Inv.store_step _ (foldl_define_rel hR _ _ _))
+
+theorem importSets_succ (hR : StoreRel R) {fuel} (ih : InvAt R fuel) {st sets acc r st'}
+    (h : evalImportSets (fuel + 1) st sets acc = (r, st')) : Inv R st st' := by
+  cases sets with
+  | nil => rw [evalImportSets] at h; cases h; exact Inv.refl hR _
+  | cons s rest =>
+    rw [evalImportSets] at h
+    split at h <;> rename_i he
+    · cases h; exact ih.importSet he
+    · exact Inv.trans hR (ih.importSet he) (ih.importSets h)
+
+theorem libraryDef_succ (hR : StoreRel R) {fuel} (ih : InvAt R fuel) {st decls r st'}
+    (h : evalLibraryDef (fuel + 1) st decls = (r, st')) : Inv R st st' := by
+  rw [evalLibraryDef] at h
+  simp only [Store.newFrame] at h
+  split at h <;> rename_i he <;> cases h <;>
+    exact Inv.trans hR (Inv.store_step _ (hR.newFrame st.store none)) (ih.libDecls he)
+
+theorem libDecls_succ (hR : StoreRel R) {fuel} (ih : InvAt R fuel) {st ρ decls acc r st'}
+    (h : evalLibDecls (fuel + 1) st ρ decls acc = (r, st')) : Inv R st st' := by
+  cases decls with
+  | nil => rw [evalLibDecls] at h; cases h; exact Inv.refl hR _
+  | cons d ds =>
+    cases d <;> rw [evalLibDecls] at h
+    · split at h <;> rename_i he
+      · cases h; exact ih.import_ he
+      · exact Inv.trans hR (ih.import_ he) (ih.libDecls h)
+    · exact ih.libDecls h
+    · split at h <;> rename_i he
+      · cases h; exact ih.statements he
+      · exact Inv.trans hR (ih.statements he) (ih.libDecls h)
+
+theorem statements_succ (hR : StoreRel R) {fuel} (ih : InvAt R fuel) {st ρ ss r st'}
+    (h : evalStatements (fuel + 1) st ρ ss = (r, st')) : Inv R st st' := by
+  cases ss with
+  | nil => rw [evalStatements] at h; cases h; exact Inv.refl hR _
+  | cons s rest =>
+    rw [evalStatements] at h
+    split at h <;> rename_i he
+    · cases h; exact evalExprOrDef_inv hR he
+    · exact Inv.trans hR (evalExprOrDef_inv hR he) (ih.statements h)
+
+theorem invAt (hR : StoreRel R) : ∀ fuel, InvAt R fuel
+  | 0 => invAt_zero hR
+  | fuel + 1 =>
+    have ih := invAt hR fuel
+    ⟨importSet_succ hR ih, getLibrary_succ hR ih, import_succ hR ih, importSets_succ hR ih,
+     libraryDef_succ hR ih, libDecls_succ hR ih, statements_succ hR ih⟩
+
+/-- the trivial store relation: enough for everything that does not concern the store -/
+theorem storeRel_true : StoreRel (fun _ _ => True) :=
+  ⟨fun _ => trivial, fun _ _ => trivial, fun _ => trivial, fun _ _ _ _ => trivial, fun _ _ => trivial⟩
+
+theorem getLibrary_ok_cached {fuel : Nat} {st st' : State} {name : LibName} {loc : Loc} {defs : S.Bindings}
+    (h : Interp.getLibrary fuel st name loc = (.ok defs, st')) :
+    libLookup st'.instances name = some defs := by
+  cases fuel with
+  | zero => rw [Interp.getLibrary] at h; cases h
+  | succ fuel =>
+    rw [getLibrary_succ_eq] at h
+    split at h
+    · rename_i hc; cases h; exact hc
+    · split at h
+      · cases h
+      · unfold instantiate cacheInstance at h
+        split at h
+        · cases h; exact libLookup_libInsert_self _ _ _
+        · cases h
+
+theorem evalAst_inv (hR : StoreRel R) {fuel st s r st'}
+    (h : evalAst fuel st s = (r, st')) :
+    ∃ st1, (st1 = st ∨ st1 = { st with importEnd := true }) ∧ Inv R st1 st' := by
+  unfold evalAst at h
+  generalize hres : (if (!st.importEnd) = true then _ else _ : Except SErr (Option Value) × State) = res at h
+  have key : ∃ st1, (st1 = st ∨ st1 = { st with importEnd := true }) ∧ Inv R st1 res.2 := by
+    subst hres
+    split
+    · split
+      · split <;> rename_i he
+        · exact ⟨st, .inl rfl, (invAt hR fuel).import_ he⟩
+        · exact ⟨st, .inl rfl, (invAt hR fuel).import_ he⟩
+      · exact ⟨st, .inl rfl, Inv.refl hR _⟩
+      · exact ⟨_, .inr rfl, evalExprOrDef_inv hR (r := _) (st' := _) rfl⟩
+    · exact ⟨st, .inl rfl, evalExprOrDef_inv hR (r := _) (st' := _) rfl⟩
+  obtain ⟨r0, st0⟩ := res
+  obtain ⟨st1, h1, i⟩ := key
+  refine ⟨st1, h1, ?_⟩
+  simp only at h i
+  split at h <;> cases h <;> exact i
 end Interp
 end Ruschm
